@@ -9,7 +9,10 @@ CLAIMS = {
              "torn bit pattern: parse-iff-legal, both round trips, pinned offsets and code values (from constants "
              "regenerated out of the compiled crate), one-way transitions, tear-safety, total-status table. The model "
              "codec is compared with both crates' codecs on structured + random headers and field words every run; "
-             "torn patterns are additionally enumerated exhaustively on the implementation.",
+             "torn patterns are additionally enumerated exhaustively on the implementation; SequenceNumber::next (private) "
+             "is compared with the model's seqNext through the sequence numbers start_update writes next to an image "
+             "numbered s, for s around 0, 2^31 and the reserved 0xFFFFFFFF, with the oracle that every header the "
+             "library encoded parses.",
         note="Trusted: Lean kernel (+propext, Quot.sound), the correspondence harness, NOR AND-programming model. "
              "total_status of the new crate is private: it is observed through bl_boot_status / fallback_firmware / "
              "try_recover remediation on crafted flash.",
